@@ -32,9 +32,10 @@ BUDGET = {'quick': 50, 'thorough': 500}
 WALLCAP = {'quick': 500, 'thorough': 2700}
 
 F_LOCKED = 'C16-locked-pool-stream'
-ALL_EXCLUSIONS = {F_LOCKED}
+F_READALIGN = 'C16-read-exact-buffer-multiple'
+ALL_EXCLUSIONS = {F_LOCKED, F_READALIGN}
 # remove the id when the defect is fixed in /repo (trial run: VERIF_C16_EXCLUSIONS_OFF=C16-locked-pool-stream)
-FIXED_IN_REPO = {'C16-locked-pool-stream'}      # fix: commits landed; classes are generated again, witnesses moved to regress/
+FIXED_IN_REPO = {'C16-locked-pool-stream', 'C16-read-exact-buffer-multiple'}      # fix: commits landed; classes are generated again, witnesses moved to regress/
 ACTIVE_EXCLUSIONS = set(ALL_EXCLUSIONS) - FIXED_IN_REPO - set(x for x in os.environ.get('VERIF_C16_EXCLUSIONS_OFF', '').split(',') if x)
 F_PSVINOT = 'C15-psvi-null-xsmodel'     # not a C16 defect: crashes on the ORIGINAL pool (PSVI handler + XSModel created by the pool before the parse + attribute of a user-defined simple type)
 
@@ -188,6 +189,11 @@ def worker(ctx):
             st_.extra['bytes_equal_AB'] = st_.extra.get('bytes_equal_AB', 0) + int(info['bytes_equal_AB'])
         st_.note(xv.sha([[g['text'] for g in case['grammars']], [i['doc'] for i in case['instances']], lock, api]), info.get('nontrivial', False), labels)
         if info.get('nontrivial'): st_.sample({'grammars': [g['text'][:400] for g in case['grammars']], 'instances': [i['doc'][:200] for i in case['instances'][:3]]}, limit=2)
+        if not ok and F_READALIGN in ACTIVE_EXCLUSIONS and classify(case, detail) == F_READALIGN:
+            # open defect whose trigger (alignment of a long string in the stream) the generator cannot construct or avoid: excluded by
+            # its call-site signature and counted; the witness in regress-known/C16 keeps reporting it
+            st_.excluded_known[F_READALIGN] += 1
+            return
         if not ok:
             # no Hypothesis shrinking here: one execution costs seconds (three pools x instances); a cheap greedy reduction instead
             if len(st_.failures) < 3:
@@ -216,7 +222,6 @@ def replay(case, ctx):
     ok, detail, info = run_case(case, ctx.executor('xv_pool'))
     return ok, detail
 
-F_READALIGN = 'C16-read-exact-buffer-multiple'
 def classify(case, detail):
     if case.get('finding'): return case['finding']
     # XSerializeEngine::read(XMLByte*, n): when the part of a long byte string that follows the current buffer is an exact multiple of
